@@ -23,11 +23,12 @@ const (
 	TBool     = "bool"
 	TStringer = "stringer" // Str, implements fmt.Stringer
 	TError    = "error"
-	TAny      = "any"  // interface{} holding a string
-	TStrs     = "strs" // []string
-	TMap      = "smap" // map[string]string
-	TRec      = "rec"  // Rec struct
-	TAnys     = "anys" // []any holding strings, ints, bools, nested maps
+	TAny      = "any"   // interface{} holding a string
+	TStrs     = "strs"  // []string
+	TMap      = "smap"  // map[string]string
+	TRec      = "rec"   // Rec struct
+	TAnys     = "anys"  // []any holding strings, ints, bools, nested maps
+	TBytes    = "bytes" // []byte: a slice of numbers, but written raw in HTML context
 	// trusted types (negative control)
 	THTML     = "html"
 	TCSS      = "css"
@@ -93,6 +94,8 @@ func Decl(t string) native.Declaration {
 		return (*Rec)(nil)
 	case TAnys:
 		return (*[]any)(nil)
+	case TBytes:
+		return (*[]byte)(nil)
 	case THTML:
 		return (*native.HTML)(nil)
 	case TCSS:
@@ -133,6 +136,8 @@ func TypeExpr(t string) string {
 		return "Rec"
 	case TAnys:
 		return "[]interface{}"
+	case TBytes:
+		return "[]byte"
 	case THTMLStr:
 		return "HTMLStr"
 	case TJSStr:
@@ -217,6 +222,8 @@ func (v Value) Go() any {
 		}
 		out = append(out, int(v.I), v.B)
 		return out
+	case TBytes:
+		return []byte(s)
 	case THTML:
 		return native.HTML(s)
 	case TCSS:
@@ -429,6 +436,7 @@ const (
 	RNoCommentEnd = "nocommentend" // no "*/"
 	RNoBacktick   = "nobacktick"   // neither ` nor ${
 	RNonBlank     = "nonblank"     // at least one character that is not white space
+	RLetterFirst  = "letterfirst"  // the first byte is an ASCII letter (a value that is a whole tag name)
 )
 
 func violates(s string, restrict []string) bool {
@@ -436,6 +444,10 @@ func violates(s string, restrict []string) bool {
 		switch r {
 		case RNonEmpty:
 			if s == "" {
+				return true
+			}
+		case RLetterFirst:
+			if s == "" || !('a' <= s[0]|0x20 && s[0]|0x20 <= 'z') {
 				return true
 			}
 		case RNonBlank:
